@@ -52,12 +52,15 @@ pub fn need_prefix(m: &Merged, out: &mut Vec<String>, prefix: &str, min: u64) {
 pub mod c01;
 pub mod c02;
 pub mod c03;
+pub mod c04;
+pub mod c05;
 pub mod c06;
 pub mod c07;
 pub mod c35;
+pub mod c36;
 
 pub fn all() -> Vec<Prop> {
-    vec![c01::prop(), c02::prop(), c03::prop(), c06::prop(), c07::prop(), c35::prop()]
+    vec![c01::prop(), c02::prop(), c03::prop(), c04::prop(), c05::prop(), c06::prop(), c07::prop(), c35::prop(), c36::prop()]
 }
 pub fn find(id: &str) -> Option<Prop> { all().into_iter().find(|p| p.id == id) }
 
